@@ -4,6 +4,7 @@ package main
 // imports of one property's obligations into another that depends on them, and four new rules.
 
 import (
+	"sort"
 	"fmt"
 	"go/token"
 	"go/types"
@@ -16,8 +17,8 @@ func init() {
 	// is part of the wire format ("all-zero for a direction in which nothing was sent in the clear").
 	register("C12", c04r2, c04r3)
 	// C05-R6: the flags the dispatch check reads must be what really happened (C03-R3: Encryption = stream
-	// state; C03-R5: Authentication = what ran) - imported obligations, reported under their own rule ids.
-	register("C05", c03r3, c03r5)
+	// state; C03-R5: Authentication = what ran; C03-R7: a resumed session reports the authentication status that was recorded) - imported obligations, reported under their own rule ids.
+	register("C05", c03r3, c03r5, c03r7)
 	register("C06", c06r8, c06r9)
 	register("C15", c15r6, c15r7)
 }
@@ -937,4 +938,315 @@ func c13r7(c *Ctx) {
 		})
 	}
 	c.MinCount(rule, "x[c1:len(x)-c2] slice sites in library code", n, 5)
+}
+
+func init() { register("C13", c13r8) }
+
+// c13LenFacts: edges of fn on which len(x) >= k is established by a comparison of len(x) with a constant.
+func c13LenGeqEdges(fn *ssa.Function, x ssa.Value, need int64) []Edge {
+	var out []Edge
+	same := func(v ssa.Value) bool {
+		lc, ok := v.(*ssa.Call)
+		if !ok {
+			return false
+		}
+		bi, ok := lc.Call.Value.(*ssa.Builtin)
+		return ok && bi.Name() == "len" && lc.Call.Args[0] == x
+	}
+	for _, b := range fn.Blocks {
+		ifi := blockIf(b)
+		if ifi == nil {
+			continue
+		}
+		a := condAtom(ifi.Cond)
+		if a.Op == token.ILLEGAL {
+			continue
+		}
+		op := a.Op
+		var k int64
+		var isK bool
+		if same(a.X) {
+			k, isK = constInt(a.Y)
+		} else if same(a.Y) {
+			k, isK = constInt(a.X)
+			switch op {
+			case token.LSS:
+				op = token.GTR
+			case token.LEQ:
+				op = token.GEQ
+			case token.GTR:
+				op = token.LSS
+			case token.GEQ:
+				op = token.LEQ
+			}
+		} else {
+			continue
+		}
+		if !isK {
+			continue
+		}
+		var tEdge, fEdge bool
+		switch op {
+		case token.GEQ:
+			tEdge = k >= need
+		case token.GTR:
+			tEdge = k+1 >= need
+		case token.LSS:
+			fEdge = k >= need
+		case token.LEQ:
+			fEdge = k+1 >= need
+		case token.EQL:
+			tEdge = k >= need
+		case token.NEQ:
+			fEdge = k >= need
+		}
+		if a.Neg {
+			tEdge, fEdge = fEdge, tEdge
+		}
+		if tEdge {
+			out = append(out, Edge{b, 0})
+		}
+		if fEdge {
+			out = append(out, Edge{b, 1})
+		}
+	}
+	return out
+}
+
+// C13-R8: constant offsets into a received buffer need a length test first.
+func c13r8(c *Ctx) {
+	const rule = "C13-R8"
+	c.Doc(rule, "in the frame-level decoders of package stream (functions that receive a []byte parameter holding bytes from the peer, or a frame returned by a receiver) every slice or index expression with a constant positive offset k into such a buffer - including offsets that are a phi of constants, like the optional 16-byte IV prefix - is dominated by an edge on which len(buffer) >= k (k+1 for an index) was established by a comparison with a constant; a frame shorter than the fixed layout yields an error, not a slice-bounds panic")
+	n := 0
+	recvFns := map[*ssa.Function]bool{}
+	for _, name := range []string{"(*Stream).ReceiveFrame", "(*Stream).ReceiveFrameWithEnd", "(*Stream).ReceiveCompleteMessage", "(*Stream).decryptDataWithAAD", "(*Stream).ReadFrame"} {
+		if f := c.needFn(rule, "stream", name); f != nil {
+			recvFns[f] = true
+		}
+	}
+	for _, fn := range c.FnsOfPkg("stream") {
+		// peer buffers: []byte parameters, and the frames returned by the receive functions
+		isPeerBuf := func(v ssa.Value) bool {
+			if _, ok := v.Type().Underlying().(*types.Slice); !ok {
+				return false
+			}
+			switch x := v.(type) {
+			case *ssa.Parameter:
+				return true
+			case *ssa.Extract:
+				if call, ok := x.Tuple.(*ssa.Call); ok {
+					return recvFns[calleeFn(call)]
+				}
+			case *ssa.Call:
+				return recvFns[calleeFn(x)]
+			}
+			return false
+		}
+		// reqs: the constant offsets a bound operand can take, each with the phi edge it arrives through
+		type req struct {
+			k    int64
+			phi  *ssa.Phi
+			pred *ssa.BasicBlock
+		}
+		var consts func(v ssa.Value, d int) ([]req, bool)
+		consts = func(v ssa.Value, d int) ([]req, bool) {
+			if k, ok := constInt(v); ok {
+				return []req{{k: k}}, true
+			}
+			if phi, ok := v.(*ssa.Phi); ok && d == 0 {
+				var out []req
+				for i, e := range phi.Edges {
+					k, ok := constInt(e)
+					if !ok {
+						return nil, false
+					}
+					out = append(out, req{k, phi, phi.Block().Preds[i]})
+				}
+				return out, true
+			}
+			return nil, false
+		}
+		allInstrs(fn, func(_ *ssa.BasicBlock, _ int, in ssa.Instruction) {
+			var buf ssa.Value
+			var reqs []req
+			switch x := in.(type) {
+			case *ssa.Slice:
+				if !isPeerBuf(x.X) {
+					return
+				}
+				buf = x.X
+				for _, op := range []ssa.Value{x.Low, x.High} {
+					if op != nil {
+						if r, ok := consts(op, 0); ok {
+							reqs = append(reqs, r...)
+						}
+					}
+				}
+			case *ssa.IndexAddr:
+				if !isPeerBuf(x.X) {
+					return
+				}
+				buf = x.X
+				if r, ok := consts(x.Index, 0); ok {
+					for _, q := range r {
+						q.k++
+						reqs = append(reqs, q)
+					}
+				}
+			default:
+				return
+			}
+			for _, q := range reqs {
+				if q.k <= 0 {
+					continue
+				}
+				n++
+				construct := fmt.Sprintf("%s#%s@offset%d", fnName(fn), buf.Name(), q.k)
+				cuts := newCuts().AddEdges(c13LenGeqEdges(fn, buf, q.k)...)
+				var p []*ssa.BasicBlock
+				if q.phi != nil {
+					// only paths that enter the merge through the edge carrying this constant
+					p = findPath(entryPoint(fn), Target{Instr: q.phi.Block().Instrs[0], Pred: q.pred}, cuts)
+				} else {
+					p = findPath(entryPoint(fn), Target{Instr: in}, cuts)
+				}
+				if p != nil {
+					c.Violate(rule, construct, fmt.Sprintf("a constant offset needing %d byte(s) is applied to a peer-sized buffer without a dominating len(buffer) >= %d test: a shorter frame panics (slice bounds / index out of range)", q.k, q.k), in.Pos(), c.describePath(p)...)
+				} else {
+					c.Ok(rule, construct, fmt.Sprintf("dominated by len(buffer) >= %d", q.k), in.Pos())
+				}
+			}
+		})
+	}
+	c.MinCount(rule, "constant offsets into peer buffers in package stream", n, 2)
+}
+
+func init() { register("C14", c14r6) }
+
+// C14-R6: the fixed-layout decoders are total on the value domain.
+func c14r6(c *Ctx) {
+	const rule = "C14-R6"
+	c.Doc(rule, "GetChar, GetInt, GetInt32, GetInt64, GetUint32, GetFloat and GetDouble construct no error of their own: every error they return is one a callee returned (out of data / stream failure). Every 8-byte pattern the encoders can emit - e.g. the frexp exponent 1024 of a double in [2^1023, MaxFloat64] - therefore decodes")
+	n := 0
+	for _, name := range []string{"GetChar", "GetInt", "GetInt32", "GetInt64", "GetUint32", "GetFloat", "GetDouble"} {
+		fn := c.needFn(rule, "message", "(*Message)."+name)
+		if fn == nil {
+			continue
+		}
+		n++
+		bad := ""
+		var pos token.Pos = fn.Pos()
+		for _, r := range c.returnsOf(fn) {
+			ev := r.Ret.Results[len(r.Ret.Results)-1]
+			for _, o := range origins(fn, ev) {
+				if isNilConst(o) {
+					continue
+				}
+				if call, _ := originCall(o); call != nil {
+					if obj := calleeObj(call); obj != nil && obj.Pkg() != nil {
+						if full := obj.Pkg().Path() + "." + obj.Name(); full == "fmt.Errorf" || full == "errors.New" {
+							bad = "constructs its own error (" + full + ")"
+							pos = call.Pos()
+						}
+					}
+					continue
+				}
+				if _, isMI := o.(*ssa.MakeInterface); isMI {
+					bad = "returns an error value it builds itself"
+					pos = r.Ret.Pos()
+				}
+			}
+		}
+		c.Check(bad == "", rule, fnName(fn)+"#no-own-errors", "only propagates its callees' errors", "a fixed-layout decoder "+bad+": some value the encoder can emit is rejected on receipt", pos)
+	}
+	c.MinCount(rule, "fixed-layout decoders", n, 7)
+}
+
+func init() { register("C16", c16r6) }
+
+// C16-R6: what Import stores as a string, Export reads as a string.
+func c16r6(c *Ctx) {
+	const rule = "C16-R6"
+	c.Doc(rule, "for every attribute that ImportSecSessionInfo stores into the policy with a string-typed value (it stores every field of the text as a string, SessionExpires included), ExportSecSessionInfo has an EvaluateAttrString lookup of that attribute: the ClassAd library does not coerce a string to an integer, so a policy that came from text and is rendered again keeps every attribute (Export(Import(text)) round trip)")
+	a := c16Resolve(c, rule)
+	if a == nil {
+		return
+	}
+	// names Import stores as strings
+	stored := map[string]token.Pos{}
+	undecided := ""
+	for _, f := range withClosures(a.importInfo) {
+		allInstrs(f, func(_ *ssa.BasicBlock, _ int, in ssa.Instruction) {
+			call, ok := in.(*ssa.Call)
+			if !ok {
+				return
+			}
+			o := calleeObj(call)
+			if o == nil || o.Name() != "Set" || o.Pkg() == nil || o.Pkg().Name() != "classad" || len(call.Call.Args) != 3 {
+				return
+			}
+			val := stripConv(call.Call.Args[2])
+			if b, ok := val.Type().Underlying().(*types.Basic); !ok || b.Info()&types.IsString == 0 {
+				return
+			}
+			nameV := call.Call.Args[1]
+			var names []string
+			if par, isPar := nameV.(*ssa.Parameter); isPar && f.Parent() != nil {
+				// closure parameter: the constant arguments at its call sites in the parent
+				idx := -1
+				for i, p := range f.Params {
+					if p == par {
+						idx = i
+					}
+				}
+				for _, g := range withClosures(a.importInfo) {
+					allInstrs(g, func(_ *ssa.BasicBlock, _ int, in2 ssa.Instruction) {
+						if c2, ok := in2.(*ssa.Call); ok && calleeFn(c2) == f && idx >= 0 && idx < len(c2.Call.Args) {
+							if s, ok := constString(c2.Call.Args[idx]); ok {
+								names = append(names, s)
+							} else {
+								undecided = "a copyIf-style helper is called with a non-constant attribute name"
+							}
+						}
+					})
+				}
+			} else if ks, ok := c16ConstStrings(f, nameV); ok {
+				names = ks
+			} else {
+				undecided = "an attribute name stored by ImportSecSessionInfo is not a constant"
+			}
+			for _, s := range names {
+				stored[s] = call.Pos()
+			}
+		})
+	}
+	if undecided != "" {
+		c.Undecided(rule, fnName(a.importInfo)+"#stored-names", undecided, a.importInfo.Pos())
+	}
+	// names Export reads with a string lookup
+	readsStr := map[string]bool{}
+	allInstrs(a.export, func(_ *ssa.BasicBlock, _ int, in ssa.Instruction) {
+		call, ok := in.(*ssa.Call)
+		if !ok {
+			return
+		}
+		o := calleeObj(call)
+		if o == nil || o.Name() != "EvaluateAttrString" || len(call.Call.Args) != 2 {
+			return
+		}
+		if ks, ok := c16ConstStrings(a.export, call.Call.Args[1]); ok {
+			for _, k := range ks {
+				readsStr[k] = true
+			}
+		}
+	})
+	var names []string
+	for k := range stored {
+		names = append(names, k)
+	}
+	sort.Strings(names)
+	for _, k := range names {
+		c.Check(readsStr[k], rule, "import-string->export:"+k, "ExportSecSessionInfo reads "+k+" as a string", "ImportSecSessionInfo stores "+k+" as a string but ExportSecSessionInfo has no string lookup for it: a policy parsed from text loses "+k+" when it is rendered again", stored[k])
+	}
+	c.MinCount(rule, "attributes ImportSecSessionInfo stores as strings", len(names), 6)
 }
